@@ -36,6 +36,9 @@ class C10(object):
         m = idx % 16
         if m == 15:
             return self.make_model_case(rng)
+        if m == 12 and (idx // 16) % 2 == 0:
+            from vf.gen import modelspec as M
+            return {'kind': 'spec_model', 'mspec': M.gen_spec(rng, n_zones=rng.choice([1, 2]), maxtime=rng.randint(1, 6))}
         if m in (13, 14):
             kind = rng.choice(['short_list', 'bad_exo', 'bad_ic', 'int_scalar', 'short_tuple', 'bad_ic_zero_div'])
             return {'kind': 'reject', 'what': kind, 'maxtime': rng.randint(1, 12), 'reduction': rng.random() < 0.5}
@@ -62,7 +65,67 @@ class C10(object):
                 'builder': rng.choice(['SIM', 'SIMEX1'])}
 
     # ------------------------------------------------------------------------------------------
+    def run_spec_model(self, case):
+        """A generated model: every exogenous path the spec supplies (spending, interest and exchange rates) and every
+        initial stock must come back verbatim, every series must have horizon+1 points."""
+        from vf.gen import modelspec as M
+        rec = monitors.Recorder()
+        spec = case['mspec']
+        b = M.build(spec)
+        if b.error is not None:
+            return {'verdict': 'notjudged', 'shape': 'spec_model|' + type(b.error).__name__}
+        T = spec['maxtime']
+        V = b.V
+        rec.count('model.judged')
+        for n, v in V.items():
+            rec.count('length.judged')
+            if len(v) != T + 1:
+                rec.violate('series_length_not_horizon_plus_one', {'var': n, 'len': len(v), 'horizon': T})
+                break
+        ext = b.model.ExternalSector
+        for z in spec['zones']:
+            gkey, grole = b.gov_of[z['cur']]
+            gov = b.sectors[(gkey, grole)]
+            checks = []
+            if z['xr'] is not None and ext is not None:
+                checks.append((ext['XR'].GetVariableName(z['cur']), z['xr']))
+            if z['gov']['deposits'] and z['gov']['r'] is not None:
+                checks.append((b.sectors[(gkey, 'DEP')].GetVariableName('r'), z['gov']['r']))
+            for c in z['countries']:
+                if c['role'] == 'central':
+                    continue
+                good = b.sectors[(c['key'], 'GOOD')]
+                local = 'DEM_' + (good.Code if c['role'] == 'single' else good.FullCode)
+                checks.append((gov.GetVariableName(local), c['G']))
+                if c['hh']['F0'] is not None:
+                    rec.count('ic.judged')
+                    name = b.sectors[(c['key'], 'HH')].GetVariableName('F')
+                    if V[name][0] != float(c['hh']['F0']):
+                        rec.violate('initial_condition_not_k0_value', {'var': name, 'stated': c['hh']['F0'],
+                                                                       'got': V[name][0]})
+            for name, supplied in checks:
+                rec.count('exo.judged')
+                if name not in V or list(V[name]) != [float(x) for x in supplied[:T + 1]]:
+                    rec.violate('exogenous_not_verbatim', {'var': name, 'got': list(V.get(name, []))[:8],
+                                                           'expected': supplied[:8]})
+        rec.count('time.judged')
+        if list(V['t'])[1:] != [float(i) for i in range(1, T + 1)]:
+            rec.violate('time_axis_not_k', {'got': list(V['t'])[:8]})
+        for key, sec in b.sectors.items():
+            if sec.HasF:
+                f, lf = sec.GetVariableName('F'), sec.GetVariableName('LAG_F')
+                for k in range(1, T + 1):
+                    rec.count('lag.judged')
+                    if V[lf][k] != V[f][k - 1]:
+                        rec.violate('lag_not_previous_value', {'var': lf, 'k': k})
+                        break
+        return {'verdict': 'violated' if rec.violations else 'held', 'nontrivial': True,
+                'shape': 'spec_model|' + M.shape_of(spec), 'counters': rec.counters, 'violations': rec.violations[:4],
+                'obs': {'maxtime': T, 'n_series': len(V)}}
+
     def run_case(self, case):
+        if case['kind'] == 'spec_model':
+            return self.run_spec_model(case)
         if case['kind'] == 'reject':
             return self.run_reject(case)
         if case['kind'] == 'model':
